@@ -260,18 +260,37 @@ class Hist:
                 k = rng.choice(CLASSES[:-2]).casefold()
                 self.log.append(f'iterate by_class[{k!r}] renaming/removing/adding while iterating map{mi}')
                 n = 0
+                start = set(map(id, vmf.by_class[k]))  # the snapshot the iteration starts from
+                yielded: List[int] = []
+                broke = False
                 for e in vmf.by_class[k]:
                     n += 1
+                    yielded.append(id(e))
                     r = rng.random()
                     if r < 0.3:
                         e['classname'] = rng.choice(CLASSES[:-2])
                     elif r < 0.5:
                         e.remove()
                         self.detached.append(e)
-                    elif r < 0.7 and n < 4:
+                    elif r < 0.7 and n < 4 and id(e) in start:
+                        # (entities join only while an entity of the starting snapshot is being visited, i.e. during the
+                        # first pass of the mutation-tolerant iterator; the second pass then has to visit them)
                         vmf.create_ent(k.upper(), targetname=rng.choice(NAMES))
+                    elif r < 0.8 and n < 4 and id(e) in start:
+                        other = self.any_ent(vmf)
+                        if other is not None and other is not vmf.spawn:
+                            other['classname'] = k.upper()  # an existing entity joins the class that is being iterated
                     if n > 12:
+                        broke = True
                         break
+                if len(set(yielded)) != len(yielded):
+                    self.fail(f'iterating by_class[{k!r}] while mutating it visited an entity twice', 'iteration-visits-twice')
+                elif not broke:
+                    missed = [e for e in vmf.by_class.get(k, ()) if id(e) not in set(yielded)]
+                    self.run.count('mutating_iterations_checked')
+                    if missed:
+                        self.fail(f'iterating by_class[{k!r}] while mutating it never visited {len(missed)} entit(y/ies) that joined the class '
+                                  f'during the loop and are in the index now', 'iteration-misses-joined-entity')
                 self.nontrivial = True
             elif op == 'search_mutate':
                 q = rng.choice(NAMES[:-2])
@@ -383,7 +402,7 @@ def main(run, shard=(0, 1)) -> None:
         # the repository's own tests as an additional workload, with runtime contracts attached (rv/contracts.py)
         from rv.repo_tests_engine import run_repo_tests_with_contracts
         run_repo_tests_with_contracts(run, 'C07', ['test_vmf.py', 'test_instancing.py', 'test_bsp_entities.py', 'test_packlist.py'] if run.tier == 'thorough' else ['test_vmf.py', 'test_instancing.py'])
-    run.require('invariant_evaluations', 'history_steps')
+    run.require('mutating_iterations_checked', 'invariant_evaluations', 'history_steps')
 
 
 def replay(run, data) -> None:
